@@ -230,10 +230,12 @@ class EphysAlfCreator(object):
         clusters_depths[np.setdiff1d(np.arange(n_clusters), self.cluster_ids)] = np.nan
         assert clusters_depths.shape == (n_clusters,)
 
-        if self.model.sparse_features is None:
-            spikes_depths = clusters_depths[spike_clusters]
-        else:
+        spikes_depths = None
+        if self.model.sparse_features is not None:
             spikes_depths = self.model.get_depths()
+        if spikes_depths is None:
+            # no features, or features stored for a subset of the spikes only
+            spikes_depths = clusters_depths[spike_clusters]
         self._save_npy('spikes.depths.npy', spikes_depths, np.float32)
         self._save_npy('clusters.depths.npy', clusters_depths)
 
